@@ -7,6 +7,7 @@
 //! `hn leak`: (C11) counting global allocator: live bytes / live allocations must return exactly to the
 //!    level before the vector was created once every handle is gone. Output: one `L ok <case>` /
 //!    `L fail <class> <case> :: <what>` line per case.
+//! `hn nucleo-cols`: (C08) the number of matcher columns through the public Nucleo API, across restarts (see below).
 use nucleo::verif::VVec;
 use nucleo::Utf32String;
 use std::alloc::{GlobalAlloc, Layout, System};
@@ -437,6 +438,116 @@ pub fn leak() {
     leak_type::<Box<u64>>("Box<u64>", &|i| Box::new(i), &mut lines);
     leak_nucleo(false, 300, &mut lines);
     leak_nucleo(true, 300, &mut lines);
+    let out = std::io::stdout();
+    let mut o = out.lock();
+    for l in lines {
+        writeln!(o, "{}", l).unwrap();
+    }
+}
+
+// ---------------------------------------------------------------------------------------------
+// `hn nucleo-cols`: (C08) matcher columns through the public API.  Nucleo::new with k = 1, 2, 3 columns (one pool
+// thread, no scheduler): push / extend, tick to completion, restart(false), push / extend, tick, restart(true), push /
+// extend, tick.  Every fill callback checks the length of the column slice it is handed; every item handed out by
+// Injector::get(i), Snapshot::get_item(i) and Snapshot::get_matched_item(n) must have exactly k matcher columns holding
+// the texts its fill callback wrote.  Output: one `K ok <case>` / `K fail <class> <case> :: <what>` line per stage.
+fn cols_text(v: u32, c: usize) -> String {
+    format!("item{}\u{436}col{}", v, c)
+}
+
+fn cols_case(k: u32, lines: &mut Vec<String>) {
+    use nucleo::{Config, Nucleo};
+    use std::sync::{Arc, Mutex};
+    let mut nu: Nucleo<u32> = Nucleo::new(Config::DEFAULT, Arc::new(|| {}), Some(1), k);
+    let stages = ["initial stream", "stream created by restart(false)", "stream created by restart(true)"];
+    let mut next: u32 = 0;
+    for (sno, stage) in stages.iter().enumerate() {
+        let case = format!("columns nucleo<u32> cols={} {}", k, stage);
+        if sno == 1 {
+            nu.restart(false);
+        } else if sno == 2 {
+            nu.restart(true);
+        }
+        // (operation, value, length of the slice handed to the fill callback)
+        let bad: Arc<Mutex<Vec<(&'static str, u32, usize)>>> = Arc::new(Mutex::new(Vec::new()));
+        let inj = nu.injector();
+        let first = next;
+        let fill = |op: &'static str, bad: &Arc<Mutex<Vec<(&'static str, u32, usize)>>>, v: &u32, cols: &mut [Utf32String]| {
+            if cols.len() != k as usize {
+                bad.lock().unwrap().push((op, *v, cols.len()));
+            }
+            for c in 0..cols.len().min(k as usize) {
+                cols[c] = Utf32String::from(cols_text(*v, c).as_str());
+            }
+        };
+        for _ in 0..3 {
+            let b = bad.clone();
+            inj.push(next, move |v, cols| fill("push", &b, v, cols));
+            next += 1;
+        }
+        let b = bad.clone();
+        inj.extend((next..next + 5).collect::<Vec<u32>>().into_iter(), move |v, cols| fill("extend", &b, v, cols));
+        next += 5;
+        let b = bad.clone();
+        inj.push(next, move |v, cols| fill("push", &b, v, cols));
+        next += 1;
+        let n = next - first;
+        let mut rounds = 0;
+        while nu.tick(10).running && rounds < 1000 {
+            rounds += 1;
+        }
+        let mut fails: Vec<String> = Vec::new();
+        for (op, v, len) in bad.lock().unwrap().iter() {
+            fails.push(format!("the fill callback of Injector::{} for item {} was handed {} matcher columns", op, v, len));
+        }
+        let mut look = |what: String, it: Option<nucleo::Item<'_, u32>>, want: Option<u32>| match it {
+            None => fails.push(format!("{} returned nothing", what)),
+            Some(it) => {
+                if it.matcher_columns.len() != k as usize {
+                    fails.push(format!("{} returned an item with {} matcher columns", what, it.matcher_columns.len()));
+                }
+                if want.map_or(false, |w| w != *it.data) {
+                    fails.push(format!("{} returned item {} instead of {}", what, it.data, want.unwrap()));
+                }
+                for c in 0..it.matcher_columns.len().min(k as usize) {
+                    if it.matcher_columns[c].to_string() != cols_text(*it.data, c) {
+                        fails.push(format!("{}: column {} of item {} is `{}`, its fill callback wrote `{}`", what, c, it.data, it.matcher_columns[c], cols_text(*it.data, c)));
+                    }
+                }
+            }
+        };
+        if inj.injected_items() != n {
+            look(format!("injected_items() = {} after {} items;  Injector::get(0)", inj.injected_items(), n), None, None);
+        }
+        for i in 0..n {
+            look(format!("Injector::get({})", i), inj.get(i), Some(first + i));
+        }
+        let snap = nu.snapshot();
+        let mut extra: Vec<String> = Vec::new();
+        if snap.item_count() != n || snap.matched_item_count() != n {
+            extra.push(format!("the snapshot has {} items / {} matches after {} items were injected and tick reported running=false", snap.item_count(), snap.matched_item_count(), n));
+        }
+        for i in 0..n {
+            look(format!("Snapshot::get_item({})", i), snap.get_item(i), Some(first + i));
+        }
+        for i in 0..snap.matched_item_count() {
+            look(format!("Snapshot::get_matched_item({})", i), snap.get_matched_item(i), None);
+        }
+        fails.extend(extra);
+        if fails.is_empty() {
+            lines.push(format!("K ok {}", case));
+        } else {
+            let more = if fails.len() > 3 { format!(" (and {} more)", fails.len() - 3) } else { String::new() };
+            lines.push(format!("K fail columns {} :: the Nucleo was created with {} matcher column(s), but {}{}", case, k, fails[..fails.len().min(3)].join("; "), more));
+        }
+    }
+}
+
+pub fn nucleo_cols() {
+    let mut lines: Vec<String> = Vec::new();
+    for k in 1..=3u32 {
+        cols_case(k, &mut lines);
+    }
     let out = std::io::stdout();
     let mut o = out.lock();
     for l in lines {
